@@ -916,7 +916,29 @@ func simRegistry(term, svc, model map[string]*ast.File) {
 			return true
 		})
 	}
-	fmt.Fprintf(&out, "(* GoJT808.Run: createDefaultHandle() and newConnection() are called inside the accept loop *)\n")
+	// ... and newConnection builds the connection's own channels and serial counter: its composite literal has
+	// msgChan: make(...), reissuePackChan: make(...), platformSerialNumber: <expr>
+	if nc := findFunc(svc, "", "newConnection"); nc != nil {
+		made := map[string]bool{}
+		ast.Inspect(nc.Body, func(n ast.Node) bool {
+			if kv, ok := n.(*ast.KeyValueExpr); ok {
+				if k, ok := kv.Key.(*ast.Ident); ok {
+					if call, ok := kv.Value.(*ast.CallExpr); ok {
+						if f, ok := call.Fun.(*ast.Ident); ok && (f.Name == "make" || f.Name == "uint16") {
+							made[k.Name] = true
+						}
+					}
+				}
+			}
+			return true
+		})
+		if !(made["msgChan"] && made["reissuePackChan"] && made["platformSerialNumber"]) {
+			perConn = false
+		}
+	} else {
+		perConn = false
+	}
+	fmt.Fprintf(&out, "(* GoJT808.Run: createDefaultHandle() and newConnection() are called inside the accept loop; newConnection makes msgChan, reissuePackChan and sets platformSerialNumber *)\n")
 	fmt.Fprintf(&out, "Definition gen_handles_per_connection : bool := %t.\n\n", perConn)
 	// --- the message ids connection.onActiveRespondEvent can hand to a waiting SendActiveMessage caller
 	// (the cases of its switch, in source order; the writer tries it only when hasComplete())
